@@ -324,7 +324,7 @@ theorem perase_ok_iff (t : PTier Int) (hwf : t.WF) (a b : Int) (sh : Bool) :
   · rintro ⟨t', h⟩
     apply Classical.byContradiction
     intro hn
-    rw [perase_rejects t hwf a b sh (by omega)] at h
+    rw [perase_rejects t a b sh (by omega)] at h
     cases h
   · intro hab
     obtain ⟨t', h, _⟩ := perase_span_any t hwf a b hab sh
